@@ -4,6 +4,7 @@ import (
 	"encoding/json"
 	"fmt"
 	"strconv"
+	"strings"
 
 	"pgregory.net/rapid"
 )
@@ -28,6 +29,9 @@ type reqSpec struct {
 	// UpRetry (HTTP/1 with a retry policy on the routes): the upstream answers the first attempt of a forwarded
 	// request with 503, which the proxy retries; the second attempt is answered 200
 	UpRetry bool `json:"up_retry,omitempty"`
+	// LeaveMs (single-request HTTP/1 cases with a slow answering filter, verdict Z<code> = sleep 30 ms, then hijack):
+	// the client resets its connection this long after sending, i.e. while the filter is still busy
+	LeaveMs int `json:"leave_ms,omitempty"`
 }
 
 type chainCase struct {
@@ -105,6 +109,17 @@ func genCase(rt *rapid.T, misplaced bool) chainCase {
 			f.Scripts = append(f.Scripts, sc)
 		}
 		c.Recv = append(c.Recv, f)
+	}
+	if !misplaced && c.Proto == "Http1" && nReq == 1 && nRecv > 0 && rapid.IntRange(0, 2).Draw(rt, "clientLeaves") == 0 {
+		// a slow filter answers a client that has left meanwhile
+		i := rapid.IntRange(0, nRecv-1).Draw(rt, "slowFilter")
+		sc := c.Recv[i].Scripts[0]
+		for len(sc) > 0 && strings.IndexByte("MR", sc[len(sc)-1][0]) < 0 {
+			sc = sc[:len(sc)-1]
+		}
+		c.Recv[i].Scripts[0] = append(sc, "Z"+strconv.Itoa(rapid.SampledFrom(answerCodes).Draw(rt, "slowCode")))
+		c.Reqs[0].LeaveMs = 5
+		c.Reqs[0].UpRetry = false
 	}
 	if misplaced && !anyMisplaced {
 		i := rapid.IntRange(0, nRecv-1).Draw(rt, "misplacedFilter")
@@ -207,11 +222,19 @@ phases:
 			case 'T':
 				e.Outcome = "term"
 				return e
+			case 'Z':
+				if c.Reqs[r].LeaveMs > 0 {
+					// the client reset the stream while the filter was busy: nothing is delivered, so there is no
+					// response for the send filters to see, and nothing goes upstream
+					e.Outcome, e.AnsIdx, e.AnsV = "gone", i, v
+					break phases
+				}
+				fallthrough
 			case 'H', 'B', 'D':
 				e.Outcome, e.AnsIdx, e.AnsV = "ans", i, v
 				e.Code, _ = strconv.Atoi(v[1:])
 				e.Marker = markerOf(i, v)
-				if v[0] != 'H' {
+				if v[0] != 'H' && v[0] != 'Z' {
 					e.Body = answerBody(i, v, tok)
 				}
 				break phases
@@ -244,6 +267,9 @@ phases:
 	if e.Outcome == "up" {
 		e.Body = "up:" + tok
 		e.Code = 200
+	}
+	if e.Outcome == "gone" {
+		return e
 	}
 	for j := 0; j < c.Send; j++ {
 		e.Calls = append(e.Calls, call{Kind: "s", Idx: j, N: 0, Marker: e.Marker, Body: e.Body})
